@@ -15,13 +15,16 @@ def add(pid, text, ref, technique, note=""):
 add("C01",
     "Bounded symbolic model checking: for every token sequence up to the stated length over a vocabulary holding every "
     "command, tag and token class (and per command every argument sequence up to K), the solver-driven exploration "
-    "compares Parser.parse's verdict with an independent RFC 5228 recogniser; each partition must be exhausted.",
+    "compares Parser.parse's verdict with an independent RFC 5228 recogniser; each partition must be exhausted; plus valid "
+    "corpus scripts with every single edit and layout variation, and unbounded z3 lemmas equating the lexer rules with the "
+    "RFC 5228 token classes.",
     "DESIGN.md 3/C01", "CrossHair symbolic execution (z3) of Parser.parse on lazily materialised symbolic token choices vs reference grammar")
 add("C02",
     "Bounded symbolic model checking of totality: same token spaces plus error-message construction after multi-byte "
     "text and single-byte mutations/truncations of valid scripts; asserts a boolean verdict, no exception, bounded "
-    "lexer polls, well-formed error/error_pos.",
-    "DESIGN.md 3/C02", "CrossHair symbolic execution (z3) of Parser.parse with fuel-guarded lazy script; z3 regex lemmas (epsilon-freeness)")
+    "lexer polls, well-formed error/error_pos, for parse and parse_file alike; script shapes at sizes up to 6000; unbounded z3 "
+    "lemmas: every lexer rule is epsilon-free and no repeated sub-pattern has ambiguous iterations (no exponential backtracking).",
+    "DESIGN.md 3/C02", "CrossHair symbolic execution (z3) of Parser.parse/parse_file with fuel-guarded lazy script; z3 regex lemmas (epsilon-freeness, unambiguous repeats)")
 add("C03",
     "Bounded symbolic model checking: on every accepting path of the token/argument spaces the tree in Parser.result "
     "(normalised through public attributes) equals the tree an independent RFC 5228 8.2 parser builds from the tokens.",
@@ -42,7 +45,8 @@ add("C07",
 add("C13",
     "Inductive step by symbolic execution: with every attribute the parser keeps between calls set to an arbitrary "
     "(symbolic) value and an arbitrary global extension list, parse() of each corpus script gives exactly the pristine "
-    "outcome (verdict, error, tree, serialisation, comments).",
+    "outcome (verdict, error, tree, serialisation, comments) and leaves the module's shared definitions untouched; "
+    "FiltersSet building and loading do not depend on an arbitrary global extension list.",
     "DESIGN.md 3/C13", "CrossHair symbolic execution (z3) of Parser.parse from a havocked (symbolic) pre-state; AST-derived state list")
 add("C20",
     "Bounded symbolic model checking over symbolic command definitions of the documented shape registered through the "
@@ -72,7 +76,7 @@ add("C05",
     "Inductive step by symbolic execution: for arbitrary buffer and segment contents within the length bounds, reading "
     "from (buffer, [S1, S2]) and from (buffer+S1, [S2]) gives the same result and leftover for the block reader and the "
     "line reader (so any number of segments is equivalent to one); plus every operation over a reply corpus with "
-    "symbolic cut points and recv() caps followed by a sentinel operation.",
+    "symbolic cut points and recv() caps followed by a sentinel operation, incl. replies larger than the read size.",
     "DESIGN.md 3/C05", "CrossHair symbolic execution (z3) of __read_block/__read_line on symbolic bytes (segment-absorption lemma) + cut-point exploration")
 add("C08",
     "Bounded symbolic model checking: names/contents of symbolic code points flow through every public operation, "
